@@ -1,4 +1,5 @@
 import MmtkModel.Lemmas.Sched
+import MmtkModel.Lemmas.SchedLive
 import MmtkModel.Generated.Stages
 /-!
 # C16 — Worker shutdown and fork round-trip every worker exactly once
@@ -237,6 +238,200 @@ theorem gc_after_fork {c : Cfg} {s s' : State} {a : Act} (hr : Reachable c s) (h
       | none => rw [ht] at e; cases e
       | some t1 => rw [ht] at e; exact ih t1 e
   exact this run _ h
+
+/-! ## liveness: every worker exits and surrenders -/
+
+/-- the exit phase: an exit goal is current, `prepare_surrender_buffer` has been called, and every worker
+has been notified (`woken`), has left its loop (`exited`) or has surrendered its struct -/
+def ExitPhase (c : Cfg) (s : State) : Prop :=
+  (∃ g, s.current = some g ∧ g.isExit = true) ∧ (∃ k, s.creation = .surrendered k) ∧
+  ∀ w, w < c.n → qLate (s.pc w) = true
+
+theorem step_wake_exit {c : Cfg} {s s' : State} {x : Nat} (hs : step c s (.wake x) = some s')
+    (hg : ∃ g, s.current = some g ∧ g.isExit = true) : s.pc x = .woken ∧ s'.pc x = .exited := by
+  simp only [step] at hs
+  split at hs
+  · rename_i hgd; injection hs with hs; subst hs
+    refine ⟨hgd.2.1, ?_⟩
+    obtain ⟨g, h1, h2⟩ := hg
+    unfold afterUnpark
+    cases g
+    · cases h2
+    · simp [h1, setPc]
+    · simp [h1, setPc]
+  · cases hs
+
+theorem step_surrender_pc {c : Cfg} {s s' : State} {x : Nat} (hs : step c s (.surrender x) = some s') :
+    s.pc x = .exited ∧ s'.pc x = .surrendered ∧ ∃ k, s'.creation = .surrendered k := by
+  simp only [step] at hs
+  split at hs
+  · split at hs
+    · rename_i hg
+      split at hs <;> (injection hs with hs; subst hs; exact ⟨hg.2, by simp [setPc], _, rfl⟩)
+    · cases hs
+  · cases hs
+
+/-- one step inside the exit phase stays inside it, unless all workers have surrendered before or after it -/
+theorem exitPhase_step {c : Cfg} (hn : 0 < c.n) {s s' : State} {a : Act} (hr : Reachable c s) (h : ExitPhase c s)
+    (hs : step c s a = some s') (hG : ¬ ∀ w, w < c.n → s.pc w = .surrendered)
+    (hG' : ¬ ∀ w, w < c.n → s'.pc w = .surrendered) : ExitPhase c s' := by
+  obtain ⟨hgoal, ⟨k, hcr⟩, hlate⟩ := h
+  have hA := reachable_invA hr
+  have hA' := reachable_invA (gc_after_fork hr hs)
+  have hnoresp : a ≠ .respawn := by
+    intro e; subst e
+    simp only [step] at hs
+    rw [hcr] at hs
+    simp only at hs
+    split at hs
+    · rename_i hk
+      exact hG (no_parking_when_all_surrendered hA (by rw [hcr, hk]))
+    · cases hs
+  have hnopark : ∀ w tag, a ≠ .park w tag := by
+    intro w tag e; subst e
+    obtain ⟨hw, hp, _, _⟩ := step_park_cases hs
+    have := hlate w hw; rw [hp] at this; cases this
+  have hlate' : ∀ w, w < c.n → qLate (s'.pc w) = true := by
+    intro w hw
+    rcases step_late_stable late_qLate hs w (hlate w hw) with h | rfl | rfl | rfl
+    · exact h
+    · rw [(step_wake_exit hs hgoal).2]; rfl
+    · rw [(step_surrender_pc hs).2.1]; rfl
+    · exact absurd rfl hnoresp
+  rcases step_other_E c s s' a hs with ⟨w, tag, rfl⟩ | ⟨w, rfl⟩ | ⟨w, rfl⟩ | rfl | ⟨hcur, hcre, _⟩
+  · exact absurd rfl (hnopark w tag)
+  · refine ⟨?_, ?_, hlate'⟩
+    · simp only [step] at hs
+      split at hs
+      · injection hs with hs; subst hs; rw [afterUnpark_current]; exact hgoal
+      · cases hs
+    · simp only [step] at hs
+      split at hs
+      · injection hs with hs; subst hs; rw [afterUnpark_creation]; exact ⟨k, hcr⟩
+      · cases hs
+  · refine ⟨?_, (step_surrender_pc hs).2.2, hlate'⟩
+    simp only [step] at hs
+    rw [hcr] at hs
+    simp only at hs
+    split at hs
+    · split at hs
+      · rename_i hk
+        injection hs with hs
+        exfalso
+        apply hG'
+        apply no_parking_when_all_surrendered hA'
+        rw [← hs]; show Creation.surrendered (k + 1) = _; rw [hk]
+      · injection hs with hs; subst hs; exact hgoal
+    · cases hs
+  · exact absurd rfl hnoresp
+  · refine ⟨by rw [hcur]; exact hgoal, ?_, hlate'⟩
+    rcases hcre with e | e
+    · exact ⟨k, by rw [e]; exact hcr⟩
+    · exact ⟨0, e⟩
+
+/-- **C16 (liveness, exit phase)**: once an exit goal is current (the last parker woke everybody and left its
+loop) and the surrender pool is prepared, under fairness every worker leaves its loop and surrenders its
+struct: the run reaches a state where all `n` workers are `surrendered`.  (Each worker goes
+`woken → exited → surrendered`, each transition once: `exit_once`.) -/
+theorem workers_exit_after_goal {c : Cfg} {tr : Nat → State} {act : Nat → Option Act} (hn : 0 < c.n)
+    (R : FairRun c tr act) (h0 : ExitPhase c (tr 0)) : ∃ j, ∀ w, w < c.n → (tr j).pc w = .surrendered := by
+  apply Classical.byContradiction
+  intro hno
+  have hG : ∀ j, ¬ ∀ w, w < c.n → (tr j).pc w = .surrendered := fun j h => hno ⟨j, h⟩
+  have hI : ∀ j, ExitPhase c (tr j) := by
+    intro j
+    induction j with
+    | zero => exact h0
+    | succ j ih =>
+      cases ha : act j with
+      | none => rw [R.stutter_at ha]; exact ih
+      | some a => exact exitPhase_step hn (R.reach j) ih (R.step_at ha) (hG j) (hG (j+1))
+  have hnoresp : ∀ j, act j ≠ some .respawn := by
+    intro j ha
+    have hs := R.step_at ha
+    obtain ⟨_, ⟨k, hcr⟩, _⟩ := hI j
+    simp only [step] at hs
+    rw [hcr] at hs
+    simp only at hs
+    split at hs
+    · rename_i hk
+      exact hG j (no_parking_when_all_surrendered (reachable_invA (R.reach j)) (by rw [hcr, hk]))
+    · cases hs
+  -- a surrendered worker stays surrendered
+  have surrForever : ∀ x j, (tr j).pc x = .surrendered → ∀ i, j ≤ i → (tr i).pc x = .surrendered := by
+    intro x j h
+    have : ∀ d, (tr (j + d)).pc x = .surrendered := by
+      intro d
+      induction d with
+      | zero => exact h
+      | succ d ih =>
+        show (tr (j + d + 1)).pc x = _
+        cases ha : act (j + d) with
+        | none => rw [R.stutter_at ha]; exact ih
+        | some a =>
+          have hs := R.step_at ha
+          rcases step_late_stable late_qSurr hs x (by rw [ih]; rfl) with h | rfl | rfl | rfl
+          · cases hp : (tr (j + d + 1)).pc x <;> rw [hp] at h <;> first | rfl | cases h
+          · have := (step_wake_exit hs (hI (j + d)).1).1; rw [ih] at this; cases this
+          · have := (step_surrender_pc hs).1; rw [ih] at this; cases this
+          · exact absurd ha (hnoresp _)
+    intro i hi
+    have := this (i - j)
+    rwa [show j + (i - j) = i by omega] at this
+  have fromExited : ∀ x, x < c.n → ∀ j, (tr j).pc x = .exited → ∃ J, ∀ i, J ≤ i → (tr i).pc x = .surrendered := by
+    intro x hx j h
+    obtain ⟨m, _, _, a, ha, hmem⟩ := wf1 R (.surrender x) (fun m => (tr m).pc x = .exited) j h
+      (by
+        intro m _ hPm hnt
+        cases ha : act m with
+        | none => rw [R.stutter_at ha]; exact hPm
+        | some a =>
+          have hs := R.step_at ha
+          rcases step_late_stable late_qExited hs x (by rw [hPm]; rfl) with h | rfl | rfl | rfl
+          · cases hp : (tr (m + 1)).pc x <;> rw [hp] at h <;> first | rfl | cases h
+          · have := (step_wake_exit hs (hI m).1).1; rw [hPm] at this; cases this
+          · exact absurd ⟨_, ha, rfl⟩ hnt
+          · exact absurd ha (hnoresp _))
+      (by
+        intro m _ hPm
+        obtain ⟨_, ⟨k, hcr⟩, _⟩ := hI m
+        refine ⟨.surrender x, rfl, ?_⟩
+        simp only [step, hcr]
+        rw [if_pos ⟨hx, hPm⟩]
+        split <;> rfl)
+    simp only [FairAct.mem] at hmem; subst hmem
+    exact ⟨m + 1, surrForever x (m + 1) (step_surrender_pc (R.step_at ha)).2.1⟩
+  have fromWoken : ∀ x, x < c.n → ∀ j, (tr j).pc x = .woken → ∃ J, ∀ i, J ≤ i → (tr i).pc x = .surrendered := by
+    intro x hx j h
+    obtain ⟨m, _, _, a, ha, hmem⟩ := wf1 R (.wake x) (fun m => (tr m).pc x = .woken) j h
+      (by
+        intro m _ hPm hnt
+        cases ha : act m with
+        | none => rw [R.stutter_at ha]; exact hPm
+        | some a =>
+          have hs := R.step_at ha
+          rcases step_late_stable late_qWoken hs x (by rw [hPm]; rfl) with h | rfl | rfl | rfl
+          · cases hp : (tr (m + 1)).pc x <;> rw [hp] at h <;> first | rfl | cases h
+          · exact absurd ⟨_, ha, rfl⟩ hnt
+          · have := (step_surrender_pc hs).1; rw [hPm] at this; cases this
+          · exact absurd ha (hnoresp _))
+      (by
+        intro m _ hPm
+        refine ⟨.wake x, rfl, ?_⟩
+        have hAm := reachable_invA (R.reach m)
+        have hpos : 0 < (tr m).parked := by
+          rw [hAm.parked_eq]
+          exact countW_pos c.n _ x hx (by rw [hPm]; rfl)
+        simp [step, hx, hPm, hpos])
+    simp only [FairAct.mem] at hmem; subst hmem
+    exact fromExited x hx (m + 1) (step_wake_exit (R.step_at ha) (hI m).1).2
+  obtain ⟨J, hJ⟩ := eventually_forall_lt c.n (fun w j => (tr j).pc w = .surrendered) (fun x hx => by
+    have hl := (hI 0).2.2 x hx
+    cases hp : (tr 0).pc x <;> rw [hp] at hl <;> first | cases hl | skip
+    · exact fromWoken x hx 0 hp
+    · exact fromExited x hx 0 hp
+    · exact ⟨0, surrForever x 0 hp⟩)
+  exact hG J (fun w hw => hJ w hw J (Nat.le_refl _))
 
 open Mmtk.Generated.Stages in
 /-- a complete fork round trip with 2 workers: request, both workers exit and surrender, respawn -/
